@@ -233,6 +233,16 @@ def check_property(pid, tier, seed):
         if not (replay_info and replay_info['ok']):
             dyn_contracts.append(dict(id=c['id'], status='not-run'))
             continue
+        if c.get('kind') == 'cli-truncation':
+            d = witness.cli_search('truncation', REPO, BUILD, log)
+            if d.get('found'):
+                dyn_contracts.append(dict(id=c['id'], status='violated', input=d.get('input'), clause=d.get('clause'), detail=d.get('detail'),
+                                          obligation=c['obligation'], replay='@cli-truncation', text=c['text'], tried=d.get('tried')))
+            elif d.get('tried'):
+                dyn_contracts.append(dict(id=c['id'], status='held-on-enumerated-inputs', tried=d.get('tried'), text=c['text']))
+            else:
+                dyn_contracts.append(dict(id=c['id'], status='not-run', detail=d.get('detail')))
+            continue
         if c.get('kind') == 'cli-front':
             d, err = witness.cli_front_end(REPO, BUILD, log)
             if d is None:
@@ -443,6 +453,15 @@ def replay_file(pid, path):
         print(f'replay file names obligation {d.get("obligation")}; no concrete input recorded ({d.get("note")})')
         print('\n'.join(d.get('verifier_output', [])[:5]))
         return 1
+    if w['replay_cmd'][0] == '@cli-truncation':
+        binp = witness.build_cli(REPO, BUILD, log)
+        if not binp:
+            return 2
+        fails, detail = witness.cli_check_one(binp, BUILD, 'truncation', w['replay_cmd'][1])
+        print(json.dumps(dict(fails=fails, input=w['replay_cmd'][1], detail=detail)))
+        if fails:
+            print(f'VIOLATION property={pid} replay={path} obligation={d.get("obligation")}')
+        return 1 if fails else 0
     if w['replay_cmd'][0] == '@cli-front':
         dd, err = witness.cli_front_end(REPO, BUILD, log, only=w['replay_cmd'][1])
         print(json.dumps(dd))
